@@ -44,9 +44,9 @@ EXPR = {
     "s_empty": '""', "s_a": '"a"', "s_e": '"é"', "s_ae": '"aé"', "s_12": '"12"',
     "v_empty": "[]", "v_3": "[10, 11, 12]", "v_bytes": "[104, 105]", "v_bad": '[104, "x"]', "v_300": "[300]", "v_half": "[0.5]",
     "v_neg": "[-1]", "v_c3": "[195]", "v_surr": "[55296]", "v_nan": "[0 / 0]", "v_200": "[200]", "v_self": "mk_vself()",
-    "v_nest": '["x", "x"]',
-    "t_empty": "()", "t_1": "(1,)", "t_2": '(1, "x")', "t_vec": "([1],)",
-    "m_empty": "{}", "m_1": "{1: 2}", "m_self": "mk_mself()",
+    "v_nest": '["x", "x"]', "v_heap": "[(1, [2]), (3, [4])]",
+    "t_empty": "()", "t_1": "(1,)", "t_2": '(1, "x")', "t_vec": "([1],)", "t_heap": "((1, [2]), [3])",
+    "m_empty": "{}", "m_1": "{1: 2}", "m_self": "mk_mself()", "m_heap": "{1: (2, [3])}",
     "r_03": "(0..3)", "r_30": "(3..0)", "r_m21": "(-2..-1)", "r_11": "(1..1)",
     "c_A": "A", "c_String": "String", "c_Fiber": "Fiber", "c_Error": "Error", "c_Vec": "Vec", "c_Type": "Type",
     "i_A": "A.new()", "i_err": 'Error.new("a")', "i_stop": "StopIter.new()", "i_mapiter": "[1, 2].iter().map(f1)",
@@ -373,6 +373,17 @@ def main(tier, seed):
     if not cases:
         raise vlib.ToolError("Natives.tla produced no cases")
     ncmp, kinds = run_natives(rep, binaries, cases)
+    # misuse that needs a HISTORY rather than one operation: containers mutated while iterated, iterators shared between
+    # loops, fibers called in every state - the iteration and fiber scenario products, executed by the reference machine
+    import random
+    import profcheck
+    import scenarios
+    nsc = 700 if tier == "quick" else 8000
+    profcheck.run_scenarios(rep, "iteration", scenarios.iteration_scenarios(random.Random(seed + 2), nsc), binaries, PROP)
+    profcheck.run_scenarios(rep, "fibers", scenarios.fiber_scenarios(random.Random(seed + 2), nsc, nfib=3), binaries, PROP)
+    states += rep.coverage.pop("states", 0)
+    rep.coverage.pop("transitions", 0)
+    ncmp += rep.coverage.pop("traces_validated_against_impl", 0)
     lim_i, nest_i, st_i = stack_budget(rep, True, tier)       # the ideal: both budgets respected (invariant SlotsRespected)
     lim, nest, st_a = stack_budget(rep, False, tier)          # as built: predicted outcomes incl. the recorded overrun
     nlim = run_limits(rep, binaries, lim, nest)
